@@ -242,13 +242,15 @@ func (cfg Config) Build(opts ...Option) (*Logger, error) {
 		return nil, err
 	}
 
+	// Check the level before opening any sink: nothing closes the sinks if
+	// Build fails after openSinks has succeeded.
+	if cfg.Level == (AtomicLevel{}) {
+		return nil, errors.New("missing Level")
+	}
+
 	sink, errSink, err := cfg.openSinks()
 	if err != nil {
 		return nil, err
-	}
-
-	if cfg.Level == (AtomicLevel{}) {
-		return nil, errors.New("missing Level")
 	}
 
 	log := New(
